@@ -210,10 +210,13 @@ def aggFlags (g : Granularity) (noInlines showColumns : Bool) : Option AggFlags 
   | .lines => some ⟨inl, true, true, true, showColumns, false⟩
   | .addresses => if inl then none else some ⟨inl, true, true, true, showColumns, true⟩
 
-/-- `Profile.Aggregate` (the parts that bear on entry identity: functions and locations). -/
+/-- `Profile.Aggregate` (the parts that bear on entry identity: functions and locations). When the
+function identity is dropped (`!function`) the name, the system name AND the start line go (the
+start line is part of the identity of an entry without a name: /repo fix
+"aggregate drops start line with function"). -/
 def aggregate (p : Profile) (f : AggFlags) : Profile :=
   let fns := p.functions.map fun fn =>
-    let fn := if !f.function then { fn with name := [], systemName := [] } else fn
+    let fn := if !f.function then { fn with name := [], systemName := [], startLine := 0 } else fn
     if !f.filename then { fn with filename := [] } else fn
   let locs := p.locations.map fun l =>
     let lines := if !f.inlineFrame && l.lines.length > 1 then l.lines.drop (l.lines.length - 1) else l.lines
